@@ -11,7 +11,7 @@ use crate::exch::{ExchCfg, Gate, Menu, ServerMsg};
 use crate::exch_run::{replay_exchange, run_exchanges};
 use crate::gen::*;
 
-pub const RULE: &str = "requests {POST, PUT, PATCH, GET with send-body-despite-method} x {HTTP/1.0, 1.1} x {Content-Length: 3, chunked} (POST / PUT / GET-despite also with Content-Length: 0), all with Expect: 100-continue, plus flows obtained by following a 302 / 307 redirect that inherit the Expect header and are converted with send-body-despite-method; server: bare interim 100 with reason {Continue, empty, none, 200-byte phrase} in HTTP/1.0 and 1.1 followed by the final response after the body, or a refusal = final head with status {101,102,103,199,200,204,205,300,302,403,417,500} bare / with 1 / with 2 fields (200 and 403 also with Connection: keep-alive, and with an empty-valued field first) arriving instead of the 100, or a silent server; per exchange the COMPLETE graph with 1-byte arrivals, try_read_100 at every window (while can_keep_await_100), give-up at EVERY prefix, then both later paths (body then response incl. late 100, or response directly) run to Cleanup. distinct = distinct (exchange, final observation) pairs (several per exchange are legitimate here: give-up before a refusal sends the body)";
+pub const RULE: &str = "requests {POST, PUT, PATCH, GET with send-body-despite-method} x {HTTP/1.0, 1.1} x {Content-Length: 3, chunked} (POST / PUT / GET-despite also with Content-Length: 0), all with Expect: 100-continue (once as the second of two Expect field lines), plus flows obtained by following a 302 / 307 redirect that inherit the Expect header and are converted with send-body-despite-method; server: bare interim 100 with reason {Continue, empty, none, 200-byte phrase} in HTTP/1.0 and 1.1 followed by the final response after the body, or a refusal = final head with status {101,102,103,199,200,204,205,300,302,403,417,500} bare / with 1 / with 2 fields (200 and 403 also with Connection: keep-alive and a 320-byte field line, and with an empty-valued field first) arriving instead of the 100, or a silent server; per exchange the COMPLETE graph with 1-byte arrivals, try_read_100 at every window (while can_keep_await_100), give-up at EVERY prefix, then both later paths (body then response incl. late 100, or response directly) run to Cleanup. plus interleaving: all 25 ordered pairs of five handshakes (two bare refusals, a refusal with fields, a 100 in time, a silent server) driven alternately on one thread. distinct = distinct (exchange, final observation) pairs (several per exchange are legitimate here: give-up before a refusal sends the body)";
 
 fn long_phrase() -> String {
     let mut s = String::new();
@@ -32,6 +32,13 @@ pub fn build(tier: Tier) -> Vec<Arc<ExchCfg>> {
                 reqs.push(req(m, v, ReqFraming::Default, 3, true, false, false));
             }
         }
+    }
+    // the expectation is one of several Expect field lines, and not the first
+    {
+        let mut r = req("POST", "1.1", ReqFraming::Length(3), 3, true, false, false);
+        r.cfg.orig.insert(0, ("expect".into(), b"x-audit".to_vec()));
+        r.label.push_str(" two-expect-lines");
+        reqs.push(r);
     }
     // an announced body of length zero still goes through the handshake
     reqs.push(req("POST", "1.1", ReqFraming::Length(0), 0, true, false, false));
@@ -92,6 +99,10 @@ pub fn build(tier: Tier) -> Vec<Arc<ExchCfg>> {
                         // an empty-valued field first
                         m = m.field("X-Pad", "");
                     }
+                    if nf == 3 && ver == "1.1" {
+                        // and a first field line of more than 256 bytes
+                        m = m.field("X-Why", &"because ".repeat(40));
+                    }
                     if nf == 3 {
                         // a refusal that asks to keep the connection: still must-close, the body was never sent
                         m = m.field("Connection", "keep-alive");
@@ -122,16 +133,44 @@ pub fn build(tier: Tier) -> Vec<Arc<ExchCfg>> {
     out
 }
 
+/// Handshakes interleaved on one thread (exch_run::run_interleaved): a bare refusal, a refusal with
+/// fields, a 100 in time, a silent server - every ordered pair, including each with itself (the second
+/// handshake of a kind on a thread must behave like the first).
+fn interleave_menu() -> Vec<Arc<ExchCfg>> {
+    let all = build(Tier::Quick);
+    let mut v: Vec<Arc<ExchCfg>> = Vec::new();
+    let mut want: Vec<Box<dyn Fn(&ExchCfg) -> bool>> = Vec::new();
+    want.push(Box::new(|c| c.server.len() == 1 && c.server[0].gate == Gate::AfterHead && c.server[0].msg.status == 403 && c.server[0].msg.fields.is_empty() && c.server[0].msg.version == "1.1"));
+    want.push(Box::new(|c| c.server.len() == 1 && c.server[0].gate == Gate::AfterHead && c.server[0].msg.status == 200 && c.server[0].msg.fields.len() == 2));
+    want.push(Box::new(|c| c.server.len() == 2 && c.server[0].msg.status == 100 && c.server[0].msg.version == "1.1"));
+    want.push(Box::new(|c| c.server.len() == 1 && c.server[0].gate == Gate::AfterBody));
+    want.push(Box::new(|c| c.server.len() == 1 && c.server[0].gate == Gate::AfterHead && c.server[0].msg.status == 500 && c.server[0].msg.fields.is_empty()));
+    for w in want {
+        if let Some(c) = all.iter().find(|c| c.prep.is_none() && c.req.version == "1.1" && w(c)) {
+            v.push(c.clone());
+        }
+    }
+    v
+}
+
 pub fn run(tier: Tier) -> Report {
     let cfgs = build(tier);
     let lim = Limits { max_states: 2_000_000, keep_final_traces: 3, keep_state_traces: 3, check_coreach: true, probe_every: 8, ..Default::default() };
     let mut rep = run_exchanges(cfgs, &lim, false, |c| c.to_json());
     let fs = rep.extra.get("final_states").and_then(|v| v.as_u64()).unwrap_or(0);
     rep.guard("final states reached", fs > 0);
+    let menu = interleave_menu();
+    rep.guard("interleave menu complete", menu.len() == 5);
+    crate::exch_run::run_interleaved("C11", menu, &mut rep);
     rep
 }
 
 pub fn replay(v: &Value) -> Result<Option<String>, String> {
+    if v["kind"].as_str() == Some("interleaved") {
+        let mut r = Report::new();
+        crate::exch_run::run_interleaved("C11", interleave_menu(), &mut r);
+        return Ok(r.violations.into_iter().next().map(|(k, (_, v))| format!("[{}] {}", k, v.what)));
+    }
     let tier = if v["tier"].as_str() == Some("thorough") { Tier::Thorough } else { Tier::Quick };
     let cfgs = build(tier);
     let i = v["cfg_index"].as_u64().ok_or("cfg_index")? as usize;
